@@ -103,6 +103,14 @@ class Recon:
         if isinstance(node, ast.NamedExpr):
             return rec(node.value)
         if isinstance(node, ast.Attribute):
+            if (isinstance(node.value, ast.Name) and at is not None and ctx.ci is not None and ctx.cfg.params
+                    and node.value.id == ctx.cfg.params[0] and not ctx.is_static and not ctx.is_classmethod):
+                # flow-sensitive view of `self.x` inside the method that assigns it
+                pseudo = f"{node.value.id}.{node.attr}"
+                table = ctx.cfg.rd_out[at] if after else ctx.cfg.rd_in[at]
+                defs = table.get(pseudo)
+                if defs and 0 not in binds:
+                    return self._from_defs(ctx, pseudo, defs, at, binds, depth)
             base = rec(node.value)
             return self.attr(base, node.attr, ctx, depth)
         if isinstance(node, ast.BinOp):
@@ -171,6 +179,12 @@ class Recon:
 
     # -- names ------------------------------------------------------------------------
     def _name(self, ctx: FuncCtx, name: str, at: Node | None, binds, after, depth):
+        if "." in name:
+            table = (ctx.cfg.rd_out[at] if after else ctx.cfg.rd_in[at]) if at is not None else {}
+            defs = table.get(name)
+            if defs:
+                return self._from_defs(ctx, name, defs, at, binds, depth)
+            return self.self_attr(ctx.ci.key, name.split(".", 1)[1], depth) if ctx.ci is not None else S.unk(name)
         defs = None
         if at is not None:
             table = ctx.cfg.rd_out[at] if after else ctx.cfg.rd_in[at]
